@@ -244,7 +244,7 @@ def run_one(case):
     _DT[0] = case.get("dt", "default")
     _NC[0] = case.get("noncontig") or False
     _MG[0] = [0, 0, 0, -34, 27][sum(case["rs"]) % 5]
-    at_ = (sum(case["rs"]) // 5) % 4       # container type of the integer-sequence arguments
+    at_ = (sum(case["rs"]) // 5) % 6       # container type of the integer-sequence arguments
 
     def V(seq):
         return vary_seq(seq, at_)
